@@ -178,7 +178,7 @@ func (r *DeviceLocal) RemoveRemoteDevice(ski string) {
 		Device: remoteDevice.Address(),
 	}
 	// remove all data caches for this device
-	for _, entity := range r.entities {
+	for _, entity := range r.Entities() {
 		for _, feature := range entity.Features() {
 			feature.CleanWriteApprovalCaches(ski)
 			feature.CleanRemoteDeviceCaches(remoteDeviceAddress)
@@ -296,7 +296,7 @@ func (r *DeviceLocal) FeatureByAddress(address *model.FeatureAddressType) api.Fe
 }
 
 func (r *DeviceLocal) CleanRemoteEntityCaches(remoteAddress *model.EntityAddressType) {
-	for _, entity := range r.entities {
+	for _, entity := range r.Entities() {
 		for _, feature := range entity.Features() {
 			feature.CleanRemoteEntityCaches(remoteAddress)
 		}
